@@ -119,7 +119,7 @@ def _validate(sc):
         pr = [sc["profile"]] + list((sc.get("per_link") or {}).values())
         if any(p.get("straggler_p", 0) for p in pr) or len(props) != 1:
             raise InvalidScenario("liveness class needs bounded delays and one proposal")
-        if sc["horizon"] < props[0]["t"] + 12 * max_delay(sc["profile"], sc.get("per_link")):
+        if sc["horizon"] < props[0]["t"] + 12 * max_delay(sc["profile"], sc.get("per_link")) - 2e-5:
             raise InvalidScenario("liveness horizon too short")
     if k in ("px-clean3", "px-2of3") and n != 3:
         raise InvalidScenario("n=3 class")
